@@ -865,6 +865,36 @@ pub fn nested_deleted_scenario(name: &str, depth: usize, extra: &[Op]) -> Scenar
     }
 }
 
+/// Two replicas that never shared a first commit: each creates the document on its own (two origin blocks, the
+/// root and the array created concurrently at index 1), then they exchange.
+pub fn independent_origins_scenario(name: &str, depth: usize, extra: &[Op]) -> Scenario {
+    let docs = vec![
+        json!({"l♭":[x(), y()]}),
+        json!({"l♭":[y(), z()], "s":"t"}),
+        json!({"l♭":[x(), y()]}),
+        json!({"l♭":[x2(), y(), z()]}),
+        json!({"m♭":[x()]}),
+    ];
+    let mut alphabet = vec![Op::Sync(0, 1), Op::Sync(1, 0), Op::Upd(0, 3), Op::Upd(1, 3), Op::Upd(1, 4), Op::Commit(0, 0), Op::Commit(1, 0), Op::Reopen(0), Op::Snapshot(1)];
+    for j in 0..2 {
+        for k in 0..2 {
+            alphabet.push(Op::Resolve(1, j, k));
+        }
+    }
+    alphabet.extend_from_slice(extra);
+    Scenario {
+        name: name.to_string(),
+        nrep: 2,
+        menu: menu(docs),
+        prologue: vec![Op::Upd(0, 0), Op::Commit(0, 0), Op::Upd(1, 1), Op::Commit(1, 1)],
+        alphabet,
+        key_opts: KeyOpts::default(),
+        max_depth: depth,
+        track: true,
+        order: None,
+    }
+}
+
 pub fn combo_scenarios(thorough: bool) -> Vec<Scenario> {
     let d = |q: usize, t: usize| if thorough { t } else { q };
     vec![
@@ -879,6 +909,7 @@ pub fn combo_scenarios(thorough: bool) -> Vec<Scenario> {
         nested_conflict_scenario("combo-nested-flattening-conflict", d(4, 5), &[]),
         idless_field_scenario("combo-idless-object-in-flattened-field", d(4, 5), &[]),
         nested_deleted_scenario("combo-outer-element-survives-inner-array-deleted", d(2, 3), &[]),
+        independent_origins_scenario("combo-independent-origins", d(4, 5), &[]),
     ]
 }
 
